@@ -85,21 +85,27 @@ impl TypeSpace {
                             .cloned()
                             .collect()
                     });
-                    let ss = Schema::Object(SchemaObject {
+                    let mut ss = SchemaObject {
                         instance_type: Some(SingleOrVec::from(*other_type)),
                         enum_values,
                         ..schema.clone()
-                    });
+                    };
                     // An Option type won't usually get a name--unless one is
                     // required (in which case we'll generated a newtype
                     // wrapper to give it a name). In such a case, we invent a
                     // new name for the inner type; otherwise, the inner type
                     // can just have this name.
                     let inner_type_name = match &type_name {
-                        Name::Required(name) => Name::Suggested(format!("{}Inner", name)),
+                        Name::Required(name) => {
+                            // The title (if any) names the wrapper.
+                            if let Some(metadata) = ss.metadata.as_mut() {
+                                metadata.title = None;
+                            }
+                            Name::Suggested(format!("{}Inner", name))
+                        }
                         _ => type_name,
                     };
-                    self.convert_option(inner_type_name, metadata, &ss)
+                    self.convert_option(inner_type_name, metadata, &Schema::Object(ss))
                 } else {
                     // .. otherwise we try again with a simpler type.
                     let new_schema = SchemaObject {
